@@ -586,6 +586,16 @@ def judge(rule, source, tree, cli_recs, upd, snap, hres, run_recs):
                 keep.append(i)
                 last_end = M[i][1]
             info["replace_all_nested_dropped"] = n - len(keep)
+            # ... and its edits are ordered and disjoint (property C06): an edit whose (possibly
+            # expanded) range starts before the previous kept edit ends is dropped, the rule the
+            # CLI applies when it writes
+            keep2, edit_end = [], -1
+            for i in keep:
+                if E[i][0] < edit_end:
+                    continue
+                keep2.append(i)
+                edit_end = E[i][1]
+            keep = keep2
             ra = [tup(x) for x in L["replace_all"]]
             if len(ra) != len(keep):
                 bad("lib.replace_all!=cli.json:count", lib=[list(x) for x in ra], cli=[show(cli_recs[i]) for i in keep])
